@@ -37,7 +37,10 @@ template <class T, class S, class Tr> inline void thread_exit_hook( cc::FCQueue<
 }
 #endif
 
-template <class Q, class Smr>
+template <class Q> inline long collided_of( Q&, std::false_type ) { return 0; }
+template <class Q> inline long collided_of( Q& q, std::true_type ) { return long( q.statistics().m_nCollided.get()); }
+
+template <class Q, class Smr, bool HasStat = false>
 struct QueueAdapter
 {
     QCfg cfg;
@@ -67,15 +70,16 @@ struct QueueAdapter
         }
         int i = h.call( -1, EMPTY ); h.ret( i, q->empty());
     }
-    void quiescent( Result&, History const& ) {}
-    void post_check( Result&, History const& ) {}
+    long collided = 0;
+    void quiescent( Result&, History const& ) { collided = collided_of( *q, std::integral_constant<bool, HasStat>()); }
+    void post_check( Result& r, History const& ) { r.aux[1] = uint64_t( collided ); }
     FifoSpec spec() const { return FifoSpec(); }
 };
 
 std::vector<Scenario> g_scen;
 
 // step: every step-th grammar program is in the quick tier, the others are thorough-only; bq/bt: preemption bounds
-template <class Q, class Smr>
+template <class Q, class Smr, bool HasStat = false>
 void add_family( std::string const& tname, int step, int bq = 2, int bt = 3, int bq3 = 2, int bt3 = 2 )
 {
     std::string base = tname + "/" + Smr::name();
@@ -88,27 +92,27 @@ void add_family( std::string const& tname, int step, int bq = 2, int bt = 3, int
     for ( auto& p : progs ) { long v = 1; for ( auto& t : p.threads ) for ( auto& o : t ) if ( o.op == ENQ ) o.a = v++; }
     int n = 0;
     for ( auto const& p : progs )
-        g_scen.push_back( make_scenario<QueueAdapter<Q, Smr>>( base, p, QCfg{ 2 }, ( n++ % step ) == 0 ? 0 : 1, bq, bt ));
+        g_scen.push_back( make_scenario<QueueAdapter<Q, Smr, HasStat>>( base, p, QCfg{ 2 }, ( n++ % step ) == 0 ? 0 : 1, bq, bt ));
     // curated 3-thread programs
     std::vector<Program> cur;
     { Program p; p.name = "2enq-1deq"; p.threads = { { { ENQ, 1, 0 } }, { { ENQ, 2, 0 } }, { { DEQ, 0, 0 }, { DEQ, 0, 0 } } }; cur.push_back( p ); }
     { Program p; p.name = "enq-deq-deq"; p.prefix = { { ENQ, 91, 0 } }; p.threads = { { { ENQ, 1, 0 } }, { { DEQ, 0, 0 } }, { { DEQ, 0, 0 } } }; cur.push_back( p ); }
     { Program p; p.name = "deq3-on-2"; p.prefix = { { ENQ, 91, 0 }, { ENQ, 92, 0 } }; p.threads = { { { DEQ, 0, 0 } }, { { DEQ, 0, 0 } }, { { DEQ, 0, 0 }, { ENQ, 1, 0 } } }; cur.push_back( p ); }
     for ( auto const& p : cur )
-        g_scen.push_back( make_scenario<QueueAdapter<Q, Smr>>( base, p, QCfg{ 3 }, step == 1 ? 0 : 1, bq3, bt3 ));
+        g_scen.push_back( make_scenario<QueueAdapter<Q, Smr, HasStat>>( base, p, QCfg{ 3 }, step == 1 ? 0 : 1, bq3, bt3 ));
     // deeper 2-thread programs (3 operations each), thorough tier
     {
         Program p; p.name = "deep-eed-dde"; p.threads = { { { ENQ, 1, 0 }, { ENQ, 2, 0 }, { DEQ, 0, 0 } }, { { DEQ, 0, 0 }, { DEQ, 0, 0 }, { ENQ, 3, 0 } } };
-        g_scen.push_back( make_scenario<QueueAdapter<Q, Smr>>( base, p, QCfg{ 2 }, 1, bq, bt ));
+        g_scen.push_back( make_scenario<QueueAdapter<Q, Smr, HasStat>>( base, p, QCfg{ 2 }, 1, bq, bt ));
         Program p2; p2.name = "deep-ede-ded"; p2.prefix = { { ENQ, 91, 0 } }; p2.threads = { { { ENQ, 1, 0 }, { DEQ, 0, 0 }, { ENQ, 2, 0 } }, { { DEQ, 0, 0 }, { ENQ, 3, 0 }, { DEQ, 0, 0 } } };
-        g_scen.push_back( make_scenario<QueueAdapter<Q, Smr>>( base, p2, QCfg{ 2 }, 1, bq, bt ));
+        g_scen.push_back( make_scenario<QueueAdapter<Q, Smr, HasStat>>( base, p2, QCfg{ 2 }, 1, bq, bt ));
     }
 }
 
 #if FAMILY == 4
 struct rw_tr: public cc::rwqueue::traits { typedef cds_verif::mutex lock_type; };
 struct fc_tr: public cc::fcqueue::traits { typedef cds_verif::mutex lock_type; };
-struct fc_el: public cc::fcqueue::traits { static constexpr const bool enable_elimination = true; };
+struct fc_el: public cc::fcqueue::traits { static constexpr const bool enable_elimination = true; typedef cc::fcqueue::stat<> stat; };
 #endif
 
 } // namespace
@@ -162,7 +166,7 @@ int main( int argc, char** argv )
         add_family<rwq_mutex, NoSmr>( "RWQueue-mutex", 1, 6, 12, 4, 6 );
         add_family<rwq_spin, NoSmr>( "RWQueue-spin", 1, 4, 8, 3, 4 );
         add_family<fcq, NoSmr>( "FCQueue", 3, 2, 2, 1, 2 );
-        add_family<fcq_elim, NoSmr>( "FCQueue-elimination", 3, 1, 2, 1, 1 );
+        add_family<fcq_elim, NoSmr, true>( "FCQueue-elimination", 3, 1, 2, 1, 1 );
         add_family<fcq_list_mutex, NoSmr>( "FCQueue-list-mutex", 6, 1, 2, 1, 1 );
     }
 #endif
